@@ -83,3 +83,13 @@ Print Assumptions C20_old_abs_refuted.
 Theorem C20_old_last_index_refuted : exists idx len, i32 idx /\ len_ok len /\ ~ i32 (CI_LAST idx len).
 Proof. exact last_index_i32_refuted. Qed.
 Print Assumptions C20_old_last_index_refuted.
+
+(* L5 (second review): I32.last_minus is a hand copy of the parser model's function; they are the same function, so the
+   statement above is about what the parser applies *)
+From JB Require PathParse.
+Theorem C20_last_minus_is_the_parsers : forall v, last_minus v = PathParse.last_minus v.
+Proof. exact last_minus_is_the_parsers. Qed.
+Print Assumptions C20_last_minus_is_the_parsers.
+Theorem C20_parser_last_minus_in_range : forall v n, i64 v -> PathParse.last_minus v = Some n -> n = (- v)%Z /\ i32 n /\ i64 (- v).
+Proof. exact parser_last_minus_in_range. Qed.
+Print Assumptions C20_parser_last_minus_in_range.
